@@ -46,6 +46,8 @@ python3 translator/py2coq_idx.py "$REPO/src/lcm" coq/Gen >> build/translator.log
 echo "translator_idx_status=$?" >> build/translator.log
 python3 translator/py2coq_datascs.py "$REPO/src/lcm" coq/Gen >> build/translator.log 2>&1
 echo "translator_datascs_status=$?" >> build/translator.log
+python3 translator/py2coq_fmask.py "$REPO/src/lcm" coq/Gen >> build/translator.log 2>&1
+echo "translator_fmask_status=$?" >> build/translator.log
 cd coq
 if [ ! -f Makefile ] || [ _CoqProject -nt Makefile ]; then
   coq_makefile -f _CoqProject -o Makefile > ../build/coq_makefile.log 2>&1
@@ -56,4 +58,6 @@ timeout 600 make runner > ../build/runner.log 2>&1
 echo "runner_status=$?" >> ../build/runner.log
 timeout 600 make runner_scs > ../build/scs_runner.log 2>&1
 echo "scs_runner_status=$?" >> ../build/scs_runner.log
+timeout 600 make runner_fmask > ../build/fmask_runner.log 2>&1
+echo "fmask_runner_status=$?" >> ../build/fmask_runner.log
 exit 0
